@@ -6,6 +6,8 @@ leading blank lines, padded delimiter lines) x body skeletons x option sets; sym
 Obligations per path:  format(fm + body) == fm' + format(body)  with fm' = the block with only CRLF -> LF;
 an unclosed opening '---' is returned unchanged apart from a final newline, however often it is formatted.
 Precondition (documented): the body's first non-blank line is not '---'.
+E-RE lemma (checks/c07_re.py): the real split_frontmatter, lifted from its current source, on K symbolic lines against
+a z3 reference reading of "block delimited by --- lines", all strings within the stated alphabet and bounds.
 E-CH kernel on split_frontmatter with symbolic text: harness/ch_kernels.py, run from main().
 """
 from __future__ import annotations
@@ -121,6 +123,16 @@ def main() -> int:
     ev = C.Evidence("C07", "model_checking")
     cs = cases(C.tier())
     findings, harness = D.run_check("C07", MODULE, cs, ev, key_fn, sample_paths=2 if C.tier() == "quick" else 4, what_fn=what_fn)
+    # E-RE lemma on split_frontmatter over symbolic lines (in-process: run_check has finished, no fork pool is alive)
+    try:
+        from checks import c07_re
+
+        f3, h3, lem = c07_re.lemmas(ev)
+        findings += f3
+        harness += h3
+    except Exception as e:  # noqa: BLE001
+        lem = {"status": f"lemma failed: {type(e).__name__}: {e}"[:300]}
+        harness.append(f"C07-RE: {lem['status']}")
     kern = {}
     try:
         from checks import kernels
@@ -135,6 +147,7 @@ def main() -> int:
         functions_encoded=["reformat_api.reformat_text -> markdown_filling.fill_markdown -> frontmatter.split_frontmatter (whole pipeline)"],
         bounds="12 frontmatter blocks (incl. \\x0b \\x0c \\x1c \\x85 U+2028, CRLF, padded delimiters) x 5 bodies x 2 option sets; body lengths and W unbounded",
         kernels=kern,
+        re_lemma=lem,
         sources=C.source_hashes(["src/flowmark/formats/frontmatter.py", "src/flowmark/linewrapping/markdown_filling.py"]),
     )
     ev.assumptions += ["A1/A2 (validated by replay)", "precondition: the body's first non-blank line is not '---'"]
